@@ -851,4 +851,21 @@ theorem cstr_nobuf_any_time (ctx : Ctx) (bs : List Byte) :
 -- non-vacuity: capacity 0 on an empty block
 example : (0#32).toNat ≤ ([] : List Byte).length := by decide
 
+/-! ### round 3b: a negative `len` given to `init` / `setbuf_v1` (was "Still open": caller error) -/
+
+/-- INSIDE THE EXCLUDED REGION of `recv_never_faults` (`cap ≤ |buf|`): `init(buf, -1)` - the `int` length
+arrives in `sline_init` as the unsigned capacity 0xFFFFFFFF - on a 4-byte block: the receiver accepts more
+bytes than the block has and the fifth payload byte is stored outside it (fault); with the true length 4 the
+same stream is answered OVERFLOW.  A negative length is a caller error the receiver cannot detect. -/
+theorem recv_negative_len_witness :
+    bfeed Ctx.v1 (BRecv.init [0, 0, 0, 0] (BitVec.ofInt 32 (-1))) [0xA8, 1, 2, 3, 4, 5] = none ∧
+    (bfeed Ctx.v1 (BRecv.init [0, 0, 0, 0] 4#32) [0xA8, 1, 2, 3, 4, 5]).map (·.2) =
+      some [CONTINUE, CONTINUE, CONTINUE, CONTINUE, OVERFLOW, GARBAGE] := by decide +kernel
+
+/-- the legacy receiver (`gstuff_autorecv_setbuf_v1(a, buf, -1)`) alike -/
+theorem legacy_negative_len_witness :
+    blfeed (BLRecv.init [0, 0, 0, 0] (BitVec.ofInt 32 (-1))) [0xAC, 1, 2, 3, 4, 5] = none ∧
+    (blfeed (BLRecv.init [0, 0, 0, 0] 4#32) [0xAC, 1, 2, 3, 4, 5]).map (·.2) =
+      some [CONTINUE, CONTINUE, CONTINUE, CONTINUE, OVERFLOW, CONTINUE] := by decide +kernel
+
 end Igris.Gstuff
